@@ -102,7 +102,14 @@ func stress(seed uint64, producers, workers, perProducer int) string {
 		return len(s.Queue) == 0 && len(s.Pending) == 0 && len(s.Processing) == 0
 	})
 	q.ShutDown()
-	wg.Wait()
+	// the workers leave when Dequeue reports the shutdown; a queue that does not wake them must not hang the run
+	gone := make(chan struct{})
+	go func() { wg.Wait(); close(gone) }()
+	select {
+	case <-gone:
+	case <-time.After(patience()):
+		return "FAIL workers-do-not-exit-after-shutdown"
+	}
 	if !drained {
 		return "FAIL queue-does-not-drain"
 	}
